@@ -207,7 +207,7 @@ theorem date_noBlank {s : Str} (h : isDate s = true) : ∀ c ∈ s, c ≠ ' ' :=
   unfold isDate at h
   split at h
   · simp only [Bool.and_eq_true, beq_iff_eq] at h
-    obtain ⟨⟨⟨⟨⟨⟨⟨⟨⟨⟨h1, h2⟩, h3⟩, h4⟩, h5⟩, h6⟩, h7⟩, h8⟩, h9⟩, h10⟩, h11⟩ := h
+    obtain ⟨⟨⟨⟨⟨⟨⟨⟨⟨⟨⟨h1, h2⟩, h3⟩, h4⟩, h5⟩, h6⟩, h7⟩, h8⟩, h9⟩, h10⟩, h11⟩, _⟩ := h
     intro c hc e
     subst e
     simp only [List.mem_cons, List.not_mem_nil, or_false] at hc
